@@ -9,7 +9,13 @@ ENTRY = dict(
          "ClientHellos of all 39 parrots under 26 field-wise mutations; 9 client-EE/CompressedCertificate messages injected at "
          "positions 0-5 of a scripted TLS 1.3 client (plaintext before/after ClientHello, under handshake keys before the client "
          "flight, after the server Finished, after the client Certificate, under application keys after the handshake) and at 3 "
-         "positions of a TLS 1.2 client; 10 kinds of raw record streams. Distinct by (function/read point, input); non-trivial when "
+         "positions of a TLS 1.2 client; 10 kinds of raw record streams; well-formed hellos whose single key share (X25519MLKEM768, "
+         "X25519, P-256, P-384, P-521) has a boundary length (0,1,31,32,33,1183..1185,1215..1217 / point size +-1) with all length "
+         "prefixes fixed up and key_share last, last-but-one or first in the extension list, against servers preferring only that "
+         "group; 15 kinds of post-handshake client traffic after a completed TLS 1.3 handshake by a Go-style and a Chrome_133 client "
+         "(KeyUpdate requested / not requested / x20 / x40 / malformed / unratcheted, NewSessionTicket, CertificateRequest, Finished, "
+         "ClientHello, client EE, CompressedCertificate, unknown type) x {client closes, client closes and the server's writes fail, "
+         "client stops reading and the server's writes block until the deadline}, server in Read under the watchdog. Distinct by (function/read point, input); non-trivial when "
          "the parser accepted resp. a read point was identified from the server's error.",
     trusted_base=["hooks/verif_c34.go (wrappers around the two unmarshalers and Conn.unmarshalHandshakeMessage; scripted TLS 1.3 client "
                   "built from the package's own client sub-steps with injection points; raw handshake-record writer)",
